@@ -43,6 +43,14 @@ Fixpoint assoc {A : Type} (k : N) (l : list (N * A)) : option A :=
 
 Definition dummy_desc : dinfo := mkD false false 0 None None [] 0 None [] [].
 
+(* raw key hash resolution: table key -> hash160(key), observations (input, hash, key found) *)
+Definition pkh_fun (tab : list (N * N)) (k : N) : N := match assoc k tab with Some h => h | None => 0%N end.
+Definition pkh_row_ok (tab : list (N * N)) (o : pinput * N * option N) : bool :=
+  opt_eqb N.eqb (resolve_pkh (pkh_fun tab) (fst (fst o)) (snd (fst o))) (snd o).
+
+Definition pkh_tap_row_ok (tab xl : list (N * N)) (o : pinput * N * option N) : bool :=
+  opt_eqb N.eqb (resolve_pkh_tap (pkh_fun tab) (pkh_fun xl) (fst (fst o)) (snd (fst o))) (snd o).
+
 Section Run.
   Variable descs : list (N * dinfo).        (* what a fresh update records, per descriptor *)
   Variable sigflags : list (N * N).         (* sighash flag of every partial signature that is not ALL *)
